@@ -56,6 +56,7 @@ def replay(pid, path):
         concrete.y0mod("y0.dsl")
         con = registry[case["function"]]
         args = pickle.loads(base64.b64decode(case["pickle"]))
+        xo.NAMES[:] = case.get("names") or ["A", "B", "C"]
         try:
             out = ("return", con.call_real(args))
         except Exception as e:
